@@ -28,6 +28,7 @@ import (
 	"github.com/nspcc-dev/neo-go/pkg/neorpc/result"
 	"github.com/nspcc-dev/neo-go/pkg/neotest"
 	"github.com/nspcc-dev/neo-go/pkg/network"
+	"github.com/nspcc-dev/neo-go/pkg/network/payload"
 	"github.com/nspcc-dev/neo-go/pkg/rpcclient"
 	"github.com/nspcc-dev/neo-go/pkg/services/rpcsrv"
 	"github.com/nspcc-dev/neo-go/pkg/smartcontract"
@@ -51,18 +52,19 @@ import (
 const c13BlockMs = 20
 
 type c13Net struct {
-	t         testing.TB
-	n         int
-	bc        *core.Blockchain
-	exec      *neotest.Executor
-	accs      []*wallet.Account // simple accounts in committee (sorted key) order
-	committee keys.PublicKeys   // sorted, as deploy.Deploy sorts it
-	netSrv    *network.Server
-	rpc       *rpcsrv.Server
-	mu        sync.Mutex
-	nns       util.Uint160
-	sent      []c13Sent // every transaction a member handed to SendRawTransaction
-	clients   []*rpcclient.Internal
+	t          testing.TB
+	n          int
+	bc         *core.Blockchain
+	exec       *neotest.Executor
+	accs       []*wallet.Account // simple accounts in committee (sorted key) order
+	committee  keys.PublicKeys   // sorted, as deploy.Deploy sorts it
+	netSrv     *network.Server
+	rpc        *rpcsrv.Server
+	mu         sync.Mutex
+	nns        util.Uint160
+	sent       []c13Sent // every transaction a member handed to SendRawTransaction
+	notaryReqs int       // notary requests members submitted
+	clients    []*rpcclient.Internal
 }
 
 type c13Sent struct {
@@ -204,6 +206,13 @@ func (c *c13Chain) SendRawTransaction(tx *transaction.Transaction) (util.Uint256
 	c.net.sent = append(c.net.sent, c13Sent{Member: c.member, Height: c.net.bc.BlockHeight(), Tx: tx, Err: err})
 	c.net.mu.Unlock()
 	return h, err
+}
+
+func (c *c13Chain) SubmitP2PNotaryRequest(req *payload.P2PNotaryRequest) (util.Uint256, error) {
+	c.net.mu.Lock()
+	c.net.notaryReqs++
+	c.net.mu.Unlock()
+	return c.Internal.SubmitP2PNotaryRequest(req)
 }
 
 var _ deploy.Blockchain = (*c13Chain)(nil)
